@@ -47,6 +47,7 @@ type State struct {
 	atomicWrites int
 	lastCASOld   *Term
 	dead         bool
+	specPhase    bool // the function under contract has returned (verifspec.End was passed): clause evaluation
 }
 
 type spawn struct {
@@ -122,6 +123,7 @@ type callRec struct {
 }
 
 type SideOblig struct {
+	Body bool // raised while executing the function under contract (before verifspec.End), not while evaluating the clause
 	Name string
 	PC   []*Term
 	Goal *Term
@@ -129,6 +131,17 @@ type SideOblig struct {
 }
 
 type Exec struct {
+	fnvWrites     []fnvWrite
+	folding       int
+	foldedCells   map[int]bool
+	dynDispatch   int
+	dispatchDepth int
+	freshBoxes  []*Term // interface values holding objects allocated during this execution
+	recApps     map[*Term]callRec // opaque applications of structural recursive spec functions (for verifspec.Reveal)
+	revealing   *Term
+	cur         *State // state of the instruction being executed (for range-aware int/bit-vector conversions)
+	i2bMemo     map[*Term]*Term
+	mergeBypass *ssa.Function
 	c        *Ctx
 	prog     *Program
 	stack    []callRec
@@ -542,6 +555,9 @@ func (x *Exec) store(st *State, addr *Term, v *Term, pos token.Pos, fn string) {
 	c := x.c
 	switch addr.Op {
 	case "cell":
+		if x.foldedCells[addr.Idx] {
+			x.aborted = append(x.aborted, "write to an object after a verifspec.Fold on it")
+		}
 		st.cells[addr.Idx] = v
 	case "faddr":
 		base := x.load(st, addr.Args[0], addr.Aux)
@@ -601,7 +617,7 @@ func (x *Exec) frameOblig(st *State, ref *Term, what, fn string) {
 		}
 	}
 	x.nFrame++
-	x.side = append(x.side, SideOblig{Name: fmt.Sprintf("frame:%s#%d", what, x.nFrame), PC: x.pcOf(st), Goal: x.c.Not(x.isOldRef(ref)), Note: "in " + fn})
+	x.side = append(x.side, SideOblig{Name: fmt.Sprintf("frame:%s#%d", what, x.nFrame), PC: x.pcOf(st), Body: !st.specPhase, Goal: x.c.Not(x.isOldRef(ref)), Note: "in " + fn})
 }
 
 // isOldRef: the reference existed when the function under contract started.
@@ -664,6 +680,33 @@ func (x *Exec) callFunc(st *State, fn *ssa.Function, args []*Term, bindings []*T
 	if x.assumeFns != nil && bindings == nil {
 		if fs := x.summaryFor(fn); fs != nil {
 			return x.summaryCall(st, fn, args, fs)
+		}
+	}
+	if bindings == nil && fn.Signature.Results().Len() == 1 {
+		if o := originOf(fn); o.Pkg != nil && x.prog.PureFns[o.Pkg.Pkg.Path()+"."+o.Name()] {
+			if x.mergeBypass == fn {
+				x.mergeBypass = nil
+			} else {
+				// pure ghost function of a `logical` contract file: one merged value, no path forks
+				x.mergeBypass = fn
+				outs := x.callFunc(st.clone(), fn, args, nil)
+				x.mergeBypass = nil
+				allRet := true
+				for _, o := range outs {
+					if o.kind != ORet {
+						allRet = false
+					}
+				}
+				if !allRet {
+					return outs
+				}
+				v, _, facts := x.mergeOuts(st, outs, x.c.SortOf(fn.Signature.Results().At(0).Type()))
+				if v != nil {
+					x.assumeFact(st, facts)
+					return []Outcome{{st: st, kind: ORet, val: v}}
+				}
+				return outs
+			}
 		}
 	}
 	x.cover[originOf(fn)] = true
@@ -789,8 +832,12 @@ func (x *Exec) recSpecCall(st *State, fn *ssa.Function, args []*Term) []Outcome 
 			}
 			return []Outcome{{st: st, kind: ORet, val: c.Ite(a.Args[0], vt, vf)}}
 		}
-		if a.Op != "box" && a != c.NilIface() {
+		if a.Op != "box" && a != c.NilIface() && x.revealing != app {
 			x.noteTrusted("recursive specification functions over opaque nodes: their value is assumed unaffected by the writes of the function under contract (every write is proved to go to fresh memory by the frame obligations)")
+			if x.recApps == nil {
+				x.recApps = map[*Term]callRec{}
+			}
+			x.recApps[app] = callRec{fn, append([]*Term(nil), args...)}
 			return []Outcome{{st: st, kind: ORet, val: app}}
 		}
 		if x.recFuel[originOf(fn)] >= x.maxFuel+2 {
@@ -819,6 +866,16 @@ func (x *Exec) recSpecCall(st *State, fn *ssa.Function, args []*Term) []Outcome 
 			return abortOut(st, "recursive spec function %s: body outside the supported subset", fn)
 		}
 		x.assumeFact(st, facts)
+		if x.folding > 0 && a.Op == "box" && len(a.Args) == 1 && a.Args[0].Op == "cell" {
+			// Fold: from now on the predicate is also known as an application on this object (so that it can be
+			// matched against the opaque applications on values read back from memory); the object must not be
+			// written afterwards (checked by store)
+			x.assumeFact(st, c.Eq(app, v))
+			if x.foldedCells == nil {
+				x.foldedCells = map[int]bool{}
+			}
+			x.foldedCells[a.Args[0].Idx] = true
+		}
 		return []Outcome{{st: st, kind: ORet, val: v}}
 	}
 	if x.recFuel[originOf(fn)] >= x.maxFuel {
@@ -967,14 +1024,24 @@ func (x *Exec) ifaceSummaryCall(st *State, recv *Term, recvType types.Type, m *t
 		return abortOut(st, "interface contract of %s: requires outside subset", m.Name())
 	}
 	x.nFrame++
-	x.side = append(x.side, SideOblig{Name: fmt.Sprintf("precondition of %s.%s#%d", n.Obj().Name(), m.Name(), x.nFrame), PC: x.pcOf(st), Goal: g})
+	x.side = append(x.side, SideOblig{Name: fmt.Sprintf("precondition of %s.%s#%d", n.Obj().Name(), m.Name(), x.nFrame), PC: x.pcOf(st), Body: !st.specPhase, Goal: g})
 	// the callee may write through pointer arguments that point to plain local variables (out-parameters)
 	savedEntry := x.entryState
 	x.entryState = st.clone()
-	for _, a := range args {
+	for i, a := range args {
 		if a.Op == "cell" {
 			if old, ok := st.cells[a.Idx]; ok && (old.Sort.Kind == KBool || old.Sort.Kind == KInt) {
 				st.cells[a.Idx] = c.Fresh("out", old.Sort)
+			}
+			continue
+		}
+		// out-parameter given as a pointer into the heap (e.g. the caller's own *bool parameter passed on)
+		if i < sig.Params().Len() {
+			if pt, ok := sig.Params().At(i).Type().Underlying().(*types.Pointer); ok {
+				if _, basic := pt.Elem().Underlying().(*types.Basic); basic {
+					es := c.SortOf(pt.Elem())
+					x.store(st, a, c.Fresh("out", es), token.NoPos, "(callee out-parameter)")
+				}
 			}
 		}
 	}
@@ -1060,27 +1127,46 @@ func (x *Exec) summaryCall(st *State, fn *ssa.Function, args []*Term, fs *FuncSu
 		x.assumeFact(st, facts)
 		return c.And(def, v)
 	}
+	// ghost parameters of the contract: bound to the nearest caller's parameter of the same name
+	for _, gp := range fs.Item.GhostParams {
+		name := strings.Fields(gp)[0]
+		var val *Term
+		for i := len(x.stack) - 1; i >= 0 && val == nil; i-- {
+			r := x.stack[i]
+			for k, p := range r.fn.Params {
+				if p.Name() == name && k < len(r.args) {
+					val = r.args[k]
+					break
+				}
+			}
+		}
+		if val == nil {
+			return abortOut(st, "summary of %s: no variable %q in the callers to bind the ghost parameter", fn, name)
+		}
+		args = append(append([]*Term(nil), args...), val)
+	}
+	nreal := len(fn.Params)
 	if req := pickInstance(fs.Req, targs); req != nil {
 		g := evalPred(req, args)
 		if g == nil {
 			return abortOut(st, "summary of %s: requires outside subset", fn)
 		}
 		x.nFrame++
-		x.side = append(x.side, SideOblig{Name: fmt.Sprintf("precondition of %s#%d", originOf(fn).Name(), x.nFrame), PC: x.pcOf(st), Goal: g})
+		x.side = append(x.side, SideOblig{Name: fmt.Sprintf("precondition of %s#%d", originOf(fn).Name(), x.nFrame), PC: x.pcOf(st), Body: !st.specPhase, Goal: g})
 	} else {
 		return abortOut(st, "no contract instance of %s for type arguments %v (add an `inst` line)", originOf(fn), targs)
 	}
 	// the result is a function of the arguments and of the memory reachable from them
 	// (heaps of the sorts reachable through pointers/slices of the parameter types; contents of local cells passed by address)
-	fargs := append([]*Term(nil), args...)
+	fargs := append([]*Term(nil), args[:nreal]...)
 	var ptypes []types.Type
 	for i := 0; i < len(fn.Params); i++ {
 		ptypes = append(ptypes, fn.Params[i].Type())
 	}
 	fargs = append(fargs, x.footprint(st, ptypes)...)
-	fargs = append(fargs, x.reachCells(st, args)...)
+	fargs = append(fargs, x.reachCells(st, args[:nreal])...)
 	sym := "sum_" + shortName(fn.String())
-	for _, a := range fargs[len(args):] {
+	for _, a := range fargs[nreal:] {
 		sym += "_" + shortName(a.Sort.Name)
 	}
 	res := c.App(sym, rs, fargs...)
@@ -1294,6 +1380,7 @@ func (x *Exec) runFrom(fr *Frame, st *State, b *ssa.BasicBlock, i int) []Outcome
 				return abortOut(st, "step budget exhausted")
 			}
 			ins := b.Instrs[i]
+			x.cur = st
 			switch ins := ins.(type) {
 			case *ssa.Phi, *ssa.DebugRef:
 				continue
@@ -1370,6 +1457,18 @@ func (x *Exec) runFrom(fr *Frame, st *State, b *ssa.BasicBlock, i int) []Outcome
 				fr.env[ins] = x.val(fr, ins.X)
 			case *ssa.MakeInterface:
 				fr.env[ins] = c.Box(ins.X.Type(), x.val(fr, ins.X))
+				if bv := fr.env[ins]; bv.Op == "box" && len(bv.Args) == 1 && bv.Args[0].Op == "cell" {
+					// a freshly allocated object stored in an interface: candidate target of later dynamic calls
+					known := false
+					for _, fb := range x.freshBoxes {
+						if fb == bv {
+							known = true
+						}
+					}
+					if !known {
+						x.freshBoxes = append(x.freshBoxes, bv)
+					}
+				}
 			case *ssa.Convert:
 				if sl, ok := ins.Type().Underlying().(*types.Slice); ok && x.val(fr, ins.X).Sort == c.Str {
 					// []byte(s): a fresh array holding the bytes of s
@@ -1895,12 +1994,35 @@ func (x *Exec) resultInv(t types.Type, v *Term) *Term {
 
 func (x *Exec) invoke(st *State, recv *Term, m *types.Func, args []*Term, recvType types.Type) []Outcome {
 	c := x.c
+	if recv.Op == "app" && recv.Name == "fnv_obj" && len(recv.Args) == 1 && recv.Args[0].Op == "cell" {
+		return x.fnvCall(st, recv.Args[0], m, args)
+	}
 	switch recv.Op {
 	case "box":
 		t := c.boxTypes[recv.Name]
 		fn := x.prog.SSA.LookupMethod(t, m.Pkg(), m.Name())
 		if fn == nil {
 			return abortOut(st, "no method %s on %s", m.Name(), t)
+		}
+		if x.folding > 0 && x.mergedDepth > 0 && len(recv.Args) == 1 && recv.Args[0].Op == "cell" && fn.Signature.Results().Len() == 1 {
+			// inside verifspec.Fold: besides its value, the call on this freshly built object is recorded as an
+			// application of the uninterpreted method symbol (the form calls take when the same object is later
+			// read back from memory as a value of unknown dynamic type); the object must not be written afterwards
+			outs := x.callFunc(st.clone(), fn, append([]*Term{recv.Args[0]}, args...), nil)
+			rs := c.SortOf(fn.Signature.Results().At(0).Type())
+			v, def, facts := x.mergeOuts(st, outs, rs)
+			if v != nil {
+				x.assumeFact(st, facts)
+				r := c.App(methodSym(m.Name(), args, rs), rs, append([]*Term{recv}, args...)...)
+				x.assumeFact(st, c.Implies(def, c.Eq(r, v)))
+				if x.foldedCells == nil {
+					x.foldedCells = map[int]bool{}
+				}
+				x.foldedCells[recv.Args[0].Idx] = true
+				if def.IsTrue() {
+					return []Outcome{{st: st, kind: ORet, val: v}}
+				}
+			}
 		}
 		return x.callFunc(st, fn, append([]*Term{recv.Args[0]}, args...), nil)
 	case "ite":
@@ -1951,6 +2073,58 @@ func (x *Exec) invoke(st *State, recv *Term, m *types.Func, args []*Term, recvTy
 		rs = c.tupleSort(sig.Results())
 	}
 	r := c.App(methodSym(m.Name(), args, rs), rs, append([]*Term{recv}, args...)...)
+	if (st.specPhase || x.dynDispatch > 0) && sig.Results().Len() == 1 && x.dispatchDepth == 0 {
+		// Specification context, receiver of unknown dynamic type: besides the uninterpreted result, say what
+		// the call yields when the receiver is one of the objects allocated by this very execution
+		// (their methods are known code): recv == box(obj) ==> result == obj.m(args).
+		for _, fb := range x.freshBoxes {
+			if _, live := st.cells[fb.Args[0].Idx]; !live {
+				continue
+			}
+			// an object is not its own descendant: while one of its methods is being evaluated it is not a
+			// candidate (dropping a candidate only drops information)
+			inProgress := false
+			for _, r := range x.stack {
+				if len(r.args) > 0 && r.args[0] == fb.Args[0] {
+					inProgress = true
+				}
+			}
+			if inProgress {
+				continue
+			}
+			cond := x.simp(st, c.Eq(recv, fb))
+			if cond.IsFalse() {
+				continue
+			}
+			t := c.boxTypes[fb.Name]
+			if t == nil || x.prog.SSA.MethodSets.MethodSet(t).Lookup(m.Pkg(), m.Name()) == nil {
+				continue
+			}
+			if it, ok := types.Unalias(recvType).Underlying().(*types.Interface); !ok || !types.Implements(t, it) {
+				continue // same method name, different interface
+			}
+			fn := x.prog.SSA.LookupMethod(t, m.Pkg(), m.Name())
+			if fn == nil {
+				continue
+			}
+			s2 := st.clone()
+			s2.trace = nil
+			x.assume(s2, cond)
+			if s2.dead {
+				continue
+			}
+			x.mergedDepth++
+			x.dispatchDepth++
+			outs := x.callFunc(s2.clone(), fn, append([]*Term{fb.Args[0]}, args...), nil)
+			x.dispatchDepth--
+			x.mergedDepth--
+			v, def, facts := x.mergeOuts(s2, outs, rs)
+			if v == nil {
+				continue
+			}
+			x.assumeFact(st, c.Implies(cond, c.And(facts, c.Implies(def, c.Eq(r, v)))))
+		}
+	}
 	var inv *Term
 	switch sig.Results().Len() {
 	case 0:
@@ -1962,6 +2136,39 @@ func (x *Exec) invoke(st *State, recv *Term, m *types.Func, args []*Term, recvTy
 	}
 	x.assumeFact(st, inv)
 	return append(res, Outcome{st: st, kind: ORet, val: r})
+}
+
+type fnvWrite struct {
+	acc, arr, off, n, res *Term
+}
+
+// fnvCall: methods of the trusted FNV hash object (see trusted()).
+func (x *Exec) fnvCall(st *State, cell *Term, m *types.Func, args []*Term) []Outcome {
+	c := x.c
+	acc := st.cells[cell.Idx]
+	switch m.Name() {
+	case "Write":
+		p := args[0]
+		es := c.BV(8)
+		arr := x.loadArr(st, c.Sel(p, 0), es)
+		off, n := c.Sel(p, 1), c.Sel(p, 2)
+		res := c.App("fnv_write", c.Int, acc, arr, off, n)
+		// extensionality against every earlier write of this execution
+		for _, w := range x.fnvWrites {
+			i := c.BoundVar("i", c.Int)
+			same := c.Forall([]*Term{i}, c.Implies(c.And(c.Cmp("<=", c.IntLit(0), i), c.Cmp("<", i, n)),
+				c.Eq(c.Select(arr, c.Arith("+", off, i)), c.Select(w.arr, c.Arith("+", w.off, i)))))
+			x.assumeFact(st, c.Implies(c.And(c.Eq(acc, w.acc), c.Eq(n, w.n), same), c.Eq(res, w.res)))
+		}
+		x.fnvWrites = append(x.fnvWrites, fnvWrite{acc, arr, off, n, res})
+		st.cells[cell.Idx] = res
+		sig := m.Type().(*types.Signature)
+		ts := c.tupleSort(sig.Results())
+		return []Outcome{{st: st, kind: ORet, val: c.Ctor(ts, n, c.NilIface())}}
+	case "Sum32":
+		return []Outcome{{st: st, kind: ORet, val: c.App("fnv_sum32", c.BV(32), acc)}}
+	}
+	return abortOut(st, "hash/fnv object: method %s not modelled", m.Name())
 }
 
 // external models a call to code outside the module.
@@ -2022,7 +2229,143 @@ func methodSym(name string, args []*Term, rs *Sort) string {
 	return n + "__" + shortName(rs.Name)
 }
 
+// knownRange: bounds of an integer or bit-vector term that are branch conditions / facts of the current state
+// (atoms  v < c, v <= c, c <= v …  with a literal c).
+func (x *Exec) knownRange(v *Term) (lo, hi int64, okLo, okHi bool) {
+	if x.cur == nil {
+		return
+	}
+	lit := func(t *Term) (int64, bool) {
+		if k, ok := t.IntVal(); ok {
+			return k, true
+		}
+		if k, ok := t.BVVal(); ok && k < 1<<62 {
+			return int64(k), true
+		}
+		return 0, false
+	}
+	upd := func(isLo bool, b int64) {
+		if isLo {
+			if !okLo || b > lo {
+				lo, okLo = b, true
+			}
+		} else if !okHi || b < hi {
+			hi, okHi = b, true
+		}
+	}
+	for t, val := range x.cur.known {
+		if len(t.Args) != 2 {
+			continue
+		}
+		strict := t.Op == "<" || t.Op == "bvult"
+		if !strict && t.Op != "<=" && t.Op != "bvule" {
+			continue
+		}
+		if t.Args[0] == v {
+			if c, ok := lit(t.Args[1]); ok {
+				switch {
+				case val && strict: // v < c
+					upd(false, c-1)
+				case val: // v <= c
+					upd(false, c)
+				case strict: // !(v < c)
+					upd(true, c)
+				default: // !(v <= c)
+					upd(true, c+1)
+				}
+			}
+		} else if t.Args[1] == v {
+			if c, ok := lit(t.Args[0]); ok {
+				switch {
+				case val && strict: // c < v
+					upd(true, c+1)
+				case val: // c <= v
+					upd(true, c)
+				case strict: // !(c < v)
+					upd(false, c)
+				default: // !(c <= v)
+					upd(false, c-1)
+				}
+			}
+		}
+	}
+	return
+}
+
+func bitsFor(hi int64) int {
+	k := 1
+	for int64(1)<<uint(k) <= hi {
+		k++
+	}
+	return k
+}
+
+// idxTerm: the integer value of a small bit-vector as an application idx(v) of an uninterpreted function
+// (equal bit-vectors give equal integers by congruence alone) together with its definition idx(v) = sum.
+func (x *Exec) idxTerm(v, sum *Term) *Term { return x.idxTermIf(x.c.True, v, sum) }
+
+// idxTermIf: the definition holds under cond (the range assumption that makes the low-bit sum exact).
+func (x *Exec) idxTermIf(cond, v, sum *Term) *Term {
+	if x.cur == nil || !x.c.Reindex {
+		return sum
+	}
+	c := x.c
+	app := c.App(fmt.Sprintf("bvidx%d", v.Sort.Width), c.Int, v)
+	def := c.Implies(cond, c.Eq(app, sum))
+	if !def.hasBound {
+		c.AddAxiom(def) // a definition: holds everywhere
+	} else {
+		x.assumeFact(x.cur, def)
+	}
+	return app
+}
+
+func (x *Exec) bitSum(v *Term, k int) *Term {
+	c := x.c
+	sum := c.IntLit(0)
+	for j := 0; j < k; j++ {
+		bit := c.mk(&Term{Op: "bvbit", Idx: j, Args: []*Term{v}, Sort: c.Bool})
+		sum = c.Arith("+", sum, c.Ite(bit, c.IntLit(1<<uint(j)), c.IntLit(0)))
+	}
+	return sum
+}
+
 func (x *Exec) toInt(v *Term) *Term {
+	if v.Sort.Kind == KBV && v.Sort.Width > 8 && v.Op != "bvand" {
+		// a value known (path condition) to be small: the weighted sum of its low bits
+		if _, hi, _, okHi := x.knownRange(v); okHi && hi >= 0 && hi < 256 {
+			return x.idxTermIf(x.c.Cmp("<=", v, x.c.BVLit(uint64(hi), v.Sort.Width)), v, x.bitSum(v, bitsFor(hi)))
+		}
+	}
+	if v.Sort.Kind == KBV && v.Op == "bvand" && len(v.Args) == 2 {
+		// a masked value (x & 31 …): the integer is the weighted sum of its few possible bits,
+		// which the solver handles far better than an opaque bit-vector to integer conversion
+		for k := 0; k < 2; k++ {
+			if m, ok := v.Args[k].BVVal(); ok && m < 256 {
+				c := x.c
+				sum := c.IntLit(0)
+				for j := 0; j < 8; j++ {
+					if m>>uint(j)&1 == 1 {
+						bit := c.mk(&Term{Op: "bvbit", Idx: j, Args: []*Term{v}, Sort: c.Bool})
+						sum = c.Arith("+", sum, c.Ite(bit, c.IntLit(1<<uint(j)), c.IntLit(0)))
+					}
+				}
+				return x.idxTerm(v, sum)
+			}
+		}
+	}
+	if v.Sort.Kind == KBV && v.Sort.Width <= 8 {
+		c := x.c
+		if m, ok := v.BVVal(); ok {
+			return c.IntLit(int64(m))
+		}
+		sum := c.IntLit(0)
+		for j := 0; j < v.Sort.Width; j++ {
+			bit := c.mk(&Term{Op: "bvbit", Idx: j, Args: []*Term{v}, Sort: c.Bool})
+			sum = c.Arith("+", sum, c.Ite(bit, c.IntLit(1<<uint(j)), c.IntLit(0)))
+		}
+		return sum
+	}
 	if v.Sort.Kind == KBV {
 		return x.c.mk(&Term{Op: "bv2nat", Args: []*Term{v}, Sort: x.c.Int})
 	}
